@@ -23,6 +23,7 @@ SCOPES = {
     "client": ("skrifa::", "incremental_font_transfer::", "shared_brotli_patch_decoder::", "read_fonts::", "font_types::"),
     "ift": ("incremental_font_transfer::", "shared_brotli_patch_decoder::"),
     "skrifa": ("skrifa::",),
+    "color": ("skrifa::color::", "skrifa::decycler::", "read_fonts::tables::colr::", "<skrifa::color::"),
 }
 LIMIT_MAX = 1024
 
